@@ -9,10 +9,11 @@
 (* what its counter returned, and what the counter may return is fixed by the genuine votes that      *)
 (* were handed to the node - and the property clauses are evaluated on the observed commits:          *)
 (*   Agreement        no two nodes added different blocks in the round                               *)
-(*   CertifiedCommit  the stored certificate is the one the protocol produced for this block, is      *)
-(*                    accepted by Cert!AcceptA for the committee, by the real ValidateBlockCert of a  *)
-(*                    witness node and of another participant, and is a Final one iff the block is    *)
-(*                    marked final                                                                  *)
+(*   CertifiedCommit  the stored certificate is of the step the protocol decided in, is accepted by    *)
+(*                    Cert!AcceptA for the validator view (approved committee members and required    *)
+(*                    number of votes as a node on the previous head derives them - read from the      *)
+(*                    trace), by the real ValidateBlockCert of a witness node and of another          *)
+(*                    participant, and is a Final one iff the block is marked final                   *)
 (*   Validity         a non-empty block comes from a node whose sortition passed                      *)
 (*   EmptyOnTimeout   after a count timed out (or no block arrived) the node votes the empty hash     *)
 (*   CountSound       the counter returned a hash only with >= Thr genuine votes of this round, step   *)
@@ -40,20 +41,21 @@ StepName(s) == IF s = R1 THEN "R1" ELSE IF s = R2 THEN "R2" ELSE IF s = Final TH
                ELSE IF s % 2 = 1 THEN "odd" \o (IF s = 1 THEN "1" ELSE "") ELSE "even"
 ValName(v) == IF v = Empty THEN "empty" ELSE IF v = NoVal THEN "none" ELSE IF v = 99 THEN "unknown" ELSE "block"
 
-TraceInit == /\ InitWith([N |-> 1, T |-> 1, TF |-> 1, MaxSteps |-> 2], {})
+TraceInit == /\ InitWith([N |-> 1, T |-> 1, TF |-> 1, MaxSteps |-> 2, Byz |-> {}], {})
              /\ l = 1 /\ skip = TRUE /\ lastres = [n \in {1} |-> NoVal]
 
 e == Trace[l]
 
 TReset ==
     /\ e.ev = "Reset"
-    /\ cf' = [N |-> e.N, T |-> e.T, TF |-> e.TF, MaxSteps |-> e.maxsteps] /\ props' = ToSet(e.props)
-    /\ pc' = [n \in 1..e.N |-> "idle"] /\ step' = [n \in 1..e.N |-> 0]
+    /\ cf' = [N |-> e.N, T |-> e.T, TF |-> e.TF, MaxSteps |-> e.maxsteps, Byz |-> ToSet(e.byz)] /\ props' = ToSet(e.props)
+    /\ pc' = [n \in 1..e.N |-> IF n \in ToSet(e.byz) THEN "done" ELSE "idle"] /\ step' = [n \in 1..e.N |-> 0]
     /\ best' = [n \in 1..e.N |-> 0] /\ blocks' = [n \in 1..e.N |-> {}] /\ sel' = [n \in 1..e.N |-> 0]
     /\ bh' = [n \in 1..e.N |-> NoVal] /\ ih' = [n \in 1..e.N |-> NoVal]
     /\ ba' = [n \in 1..e.N |-> NoCommit] /\ pend' = [n \in 1..e.N |-> NoCommit]
     /\ pool' = [n \in 1..e.N |-> {}] /\ due' = [n \in 1..e.N |-> <<>>] /\ sent' = {}
-    /\ fetched' = [n \in 1..e.N |-> {}] /\ commit' = [n \in 1..e.N |-> NoCommit] /\ endk' = [n \in 1..e.N |-> ""]
+    /\ fetched' = [n \in 1..e.N |-> {}] /\ commit' = [n \in 1..e.N |-> NoCommit]
+    /\ endk' = [n \in 1..e.N |-> IF n \in ToSet(e.byz) THEN "byzantine" ELSE ""]
     /\ lastres' = [n \in 1..e.N |-> NoVal]
     /\ skip' = FALSE
     /\ IF e.committee = e.N THEN TRUE ELSE Rep("Setup:committee-size")
@@ -71,7 +73,9 @@ TProposed ==
 
 TDeliverProposal ==
     /\ e.ev = "Deliver" /\ e.t \in {"proof", "block"}
-    /\ IF (IF e.t = "proof" THEN ProofMsg(e.p) ELSE BlockMsg(e.p)) \notin sent THEN Fail("Step:Deliver:proposal-never-sent")
+    /\ IF e.forged # ""        \* the proposal of a node whose sortition did not pass: nothing of it may be kept
+       THEN IF e.stored = 1 \/ e.best = e.p THEN Fail("Validity:ineligible-proposal-kept") ELSE UNCHANGED vars /\ Ok
+       ELSE IF (IF e.t = "proof" THEN ProofMsg(e.p) ELSE BlockMsg(e.p)) \notin sent THEN Fail("Step:Deliver:proposal-never-sent")
        ELSE IF pc[e.n] = "done" THEN UNCHANGED vars /\ Ok
        ELSE /\ Drift(\/ e.best # (IF e.p >= best[e.n] THEN e.p ELSE best[e.n])
                      \/ (e.stored = 1) # (e.p \in blocks[e.n] \/ (e.t = "block" /\ e.p >= best[e.n])))
@@ -83,6 +87,10 @@ TDeliverProposal ==
 TDeliverVote ==
     /\ e.ev = "Deliver" /\ e.t = "vote"
     /\ IF e.forged # "" THEN UNCHANGED vars /\ Ok
+       ELSE IF e.w \in cf.Byz       \* an equivocator's vote is a member's vote: it exists as soon as it is shown to somebody
+            THEN /\ sent' = sent \cup {VoteMsg(e.w, e.s, e.v)}
+                 /\ pool' = [pool EXCEPT ![e.n] = IF e.acc = 1 THEN @ \cup {VoteMsg(e.w, e.s, e.v)} ELSE @]
+                 /\ UNCHANGED <<cf, props, pc, step, best, blocks, sel, bh, ih, ba, pend, due, fetched, commit, endk>> /\ Ok
        ELSE IF VoteMsg(e.w, e.s, e.v) \notin sent THEN Fail("Step:Deliver:vote-never-cast")
        ELSE /\ Drift(e.acc = 0 /\ VoteMsg(e.w, e.s, e.v) \notin pool[e.n] /\ pc[e.n] # "done")
             /\ IF e.acc = 1 THEN DeliverVote(VoteMsg(e.w, e.s, e.v), e.n) ELSE UNCHANGED vars
@@ -138,11 +146,11 @@ TCount ==
        ELSE IF step[n] # s THEN Fail("Step:Count:step:" \o StepName(step[n]) \o "-due-" \o StepName(s) \o "-counted")
        ELSE IF e.res = -1
             THEN IF \E v \in Values : Quorum(n, s, v) THEN Fail("CountComplete:" \o StepName(s))
-                 ELSE AfterCount(n, NoVal, {}) /\ UNCHANGED pool /\ skip' = skip /\ lastres' = [lastres EXCEPT ![n] = NoVal]
+                 ELSE AfterCount(n, NoVal, {}) /\ UNCHANGED <<pool, sent>> /\ skip' = skip /\ lastres' = [lastres EXCEPT ![n] = NoVal]
        ELSE IF e.res \notin Values THEN Fail("CountSound:" \o StepName(s) \o ":unknown-hash")
        ELSE IF ~Quorum(n, s, e.res) THEN Fail("CountSound:" \o StepName(s) \o ":" \o ValName(e.res) \o ":no-genuine-quorum")
        ELSE IF ~(vs \subseteq Voters(n, s, e.res) /\ Cardinality(vs) >= Thr(s)) THEN Fail("CountSound:" \o StepName(s) \o ":certificate")
-       ELSE AfterCount(n, e.res, vs) /\ UNCHANGED pool /\ skip' = skip /\ lastres' = [lastres EXCEPT ![n] = e.res]
+       ELSE AfterCount(n, e.res, vs) /\ UNCHANGED <<pool, sent>> /\ skip' = skip /\ lastres' = [lastres EXCEPT ![n] = e.res]
 
 \* getBlockByHash: a peer answered with the block
 TFetch ==
@@ -162,7 +170,7 @@ CertProblem(n) ==
     ELSE IF e.cert.round # 1 THEN "other-round"
     ELSE IF c.cv # c.v THEN "for-another-hash"
     ELSE IF ~(c.voters \subseteq Nodes) THEN "signature-of-a-non-member"
-    ELSE IF ~CertAccepted(c) THEN "no-quorum"
+    ELSE IF ~Cert!AcceptA(ToSet(e.cert.appr), CertVotes(c.voters, c.cs, c.cv), FALSE, c.v, e.cert.req) THEN "no-quorum"
     ELSE IF ~skip /\ (\E w \in c.voters : VoteMsg(w, c.cs, c.cv) \notin sent) THEN "vote-nobody-cast"
     ELSE IF e.accW # 1 THEN "refused-by-witness"
     ELSE IF e.accP = -1 THEN "refused-by-participant"
@@ -201,7 +209,7 @@ TCommit ==
                           ELSE IF e.v # p.v THEN "CommitValue:" \o ValName(p.v) \o "-decided-" \o ValName(e.v) \o "-added"
                           ELSE IF (e.final = 1) # p.final THEN "FinalFlag:" \o (IF p.final THEN "final-count-ok-not-marked" ELSE "marked-without-final-count")
                           ELSE IF pc[n] = "getblock" /\ e.v \notin fetched[n] THEN "Step:Commit:block-from-nowhere"
-                          ELSE IF e.cert.present = 1 /\ (e.cert.s # p.cs \/ ToSet(e.cert.voters) # p.voters)
+                          ELSE IF e.cert.present = 1 /\ e.cert.s # p.cs     \* (which quorum of that step is stored is not prescribed)
                                THEN "CertifiedCommit:other-cert:" \o StepName(p.cs) \o "-due-" \o StepName(e.cert.s)
                           ELSE ""
                IN IF why = "" THEN skip' = (~Clean(n)) ELSE skip' = TRUE /\ Rep(why)
